@@ -14,6 +14,9 @@ CONSTANTS
   Hook = FALSE
   Steer = FALSE
   Emit = FALSE
+  Sizes = {1}
+  Targets = {}
+  Canon = FALSE
 INVARIANTS PTypeOK AtMostOnce WaitCoversOrKF ExactlyOnceAtQuiescence AddOK Counters NoStranded InflightGuard Conservation NoStuck
 VIEW View
 CHECK_DEADLOCK FALSE
